@@ -68,7 +68,7 @@ def floors(tier):
     return {"distinct_nontrivial": 500, "cls:nested": 300, "cls:flat": 1000, "cls:body:or": 500, "cls:body:not": 100,
             "cls:zero_solutions": 100, "cls:positional": 100, "cls:nvars=2": 300, "cls:nvars=3": 300,
             "cls:caching_off": 300, "instances_checked": 5000, "cls:f2:const": 100, "cls:f2:call": 50, "cls:special:flatten": 150, "cls:special:preused_as_condition": 150,
-            "cls:rule_variable_with_empty_domain": 100}
+            "cls:rule_variable_with_empty_domain": 100, "cls:preceded_by_an_abandoned_evaluation": 1000}
 
 
 def gen_case(rng):
@@ -100,6 +100,7 @@ def gen_case(rng):
     tags = [[rng.randrange(n0), rng.randint(1, 3)] for _ in range(rng.randint(0, n0 + 2))] if nested else []
     empty_domain = rng.randrange(nv) if (rng.random() < 0.05 and special is None) else None
     return {"world": world, "kinds": kinds, "cond": cond, "f2": f2, "nested": nested, "tags": tags, "empty_domain": empty_domain,
+            "take_first": rng.choice([0, 0, 1, 2]),
             "nested_how": rng.choice(["from", "registry"]), "positional": rng.random() < 0.15, "caching": rng.random() < 0.7,
             "special": special}
 
@@ -195,6 +196,12 @@ def run(case, world, caching, times=1, tags=()):
             body = extra_conds + body if sp.get("order") else body + extra_conds
             q = infer(entity(head, *body))
         outs = []
+        if case.get("take_first"):      # an earlier evaluation of the rule that is left after a few instances
+            it = q.evaluate()
+            for _ in range(case["take_first"]):
+                if next(it, None) is None:
+                    break
+            it.close()
         for _ in range(times):
             rows, problems, objs = [], [], []
             for o in q.evaluate():
@@ -231,6 +238,8 @@ def check_case(case, ctx):
     ctx.cls("cls:nested" if case["nested"] else "cls:flat")
     if case.get("empty_domain") is not None:
         ctx.cls("cls:rule_variable_with_empty_domain")
+    if case.get("take_first"):
+        ctx.cls("cls:preceded_by_an_abandoned_evaluation")
     ctx.cls("cls:caching_on" if case["caching"] else "cls:caching_off")
     if case["positional"]:
         ctx.cls("cls:positional")
